@@ -40,8 +40,9 @@ D14_SHAPES = {
 }
 
 LANGS = [0, 1104, 1301, 1401, 1501, 1601, 1701, 1801, 1901, 2001, 2101, 2201, 2202, 2203, 2301, 2302, 2401, 2402, 2501]
-E_SETTING_IDX = [1, 10, 11, 12, 13, 14, 21, 22, 23, 24, 25, 26, 28]   # setting fields in the 29-field encoder dump
-E_RUN_IDX = [i for i in range(29) if i not in E_SETTING_IDX]
+E_NFIELDS = 34
+E_SETTING_IDX = [1, 10, 11, 12, 13, 14, 21, 22, 23, 24, 25, 26, 33]   # setting fields in the 34-field encoder dump
+E_RUN_IDX = [i for i in range(E_NFIELDS) if i not in E_SETTING_IDX]
 
 
 def hx(b):
@@ -73,6 +74,15 @@ HAND_WBXML = [
     bytes.fromhex("0004007f01"),
     # SI with an opaque date cut in the middle
     bytes.fromhex("03056a0045c60a c30419 99".replace(" ", "")),
+    # WML: 997 / 600 elements deep, then cut off (leaves the parser as deep as it can be inside the nesting limit)
+    bytes.fromhex("03046a00" + "7f" + "67" + "60" * 995),
+    bytes.fromhex("03046a00" + "7f" + "67" + "60" * 600),
+    # SI, charset ISO-8859-1 (no converter in this build) but no string at all: converts successfully
+    bytes.fromhex("0305040005"),
+    bytes.fromhex("030504004501"),
+    # WBXML 1.0 (no charset field) / charset 0 with inline strings: the default charset or the caller's meta charset applies
+    bytes.fromhex("000500" + "45" + "c6" + "0b" + "036100" + "01" + "03" + "7a00" + "01" + "01"),
+    bytes.fromhex("03050000" + "45" + "c6" + "0b" + "036100" + "01" + "03" + "7a00" + "01" + "01"),
 ]
 
 
@@ -158,6 +168,12 @@ def build_docs(ctx, harness):
             bb[p] = rng.below(256)
             w_bad.append(docs.add("w", bytes(bb), "flip%d(%s)" % (p, docs.items[i][2])))
     hand = [docs.add("w", b, "hand-made %d" % k) for k, b in enumerate(HAND_WBXML)]
+    # corpus documents with the charset field set to 0 (= not given: default / meta charset applies)
+    w_nocs = []
+    for i in w_ok[:: max(1, len(w_ok) // 12)]:
+        b = docs.items[i][1]
+        if len(b) > 4 and b[2] == 0x6a and b[1] < 0x80 and b[1] != 0:
+            w_nocs.append(docs.add("w", b[:2] + b"\x00" + b[3:], "nocharset(%s)" % docs.items[i][2]))
     # invalid XML: truncated, unknown language, not XML at all
     x_bad = []
     for i in x_ids[:: max(1, len(x_ids) // 25)]:
@@ -167,7 +183,7 @@ def build_docs(ctx, harness):
     x_bad.append(docs.add("x", b"this is not xml", "not xml"))
     x_bad.append(docs.add("x", b"<a><b></a>", "ill-formed"))
     docs.write()
-    return docs, {"x": x_ids, "w": w_ok, "wn": w_nost, "cut": w_cut, "flip": w_bad, "hand": hand, "xbad": x_bad}, crashes
+    return docs, {"x": x_ids, "w": w_ok, "wn": w_nost, "cut": w_cut, "flip": w_bad, "hand": hand, "xbad": x_bad, "nocs": w_nocs}, crashes
 
 
 # ----------------------------------------------------------------------------------------------
@@ -256,6 +272,27 @@ def run_robust(exe, lines, env, shards=None):
                     nxt.append({"rc": cc["rc"], "stderr": cc["stderr"], "range": [rest[0] + cc["range"][0], rest[0] + cc["range"][1]]})
         pending = nxt
     return ans, culprits
+
+
+def systematic_histories(docs, g):
+    """every hand-made / dirty document followed by representative documents (one WBXML per corpus directory, the
+    charset-less variants, the hand-made complete ones), on the parser and on the wbxml2xml converter; dirty twice for
+    state that accumulates"""
+    reps, seen = [], set()
+    for i in g["w"]:
+        d = os.path.dirname(docs.items[i][2])
+        if d not in seen:
+            seen.add(d)
+            reps.append(i)
+    reps += g.get("nocs", []) + g["hand"]
+    dirty = g["hand"] + g["cut"][:: max(1, len(g["cut"]) // 25)]
+    out = []
+    for a in dirty:
+        for b in reps:
+            out.append("P d%d d%d" % (a, b))
+            out.append("W d%d d%d" % (a, b))
+        out.append("P d%d d%d " % (a, a) + " ".join("d%d" % b for b in reps[:10]))
+    return out
 
 
 def doc_ids(line):
@@ -430,7 +467,7 @@ def tie(ctx, harness, driver, docs, g, fixed_world):
                 want = [pvals[i] for i in E_SETTING_IDX]
                 want[E_SETTING_IDX.index(12)] = ot
             else:
-                want = [mvals[i] for i in E_SETTING_IDX] if len(mvals) == 29 else None
+                want = [mvals[i] for i in E_SETTING_IDX] if len(mvals) == E_NFIELDS else None
             got = [cvals[i] for i in E_SETTING_IDX]
             if want != got:
                 bad.append({"function": "encoder_encode_tree (values stored into setting fields)", "history": lines[li],
@@ -562,7 +599,7 @@ def run(ctx):
 
     # ---- histories ------------------------------------------------------------------------------------------
     nh = 4000 if ctx.tier == "quick" else 50000
-    hist = gen_histories(ctx, g, nh)
+    hist = systematic_histories(docs, g) + gen_histories(ctx, g, nh)
     ans, culprits = run_robust(harness, hist, docs.env(), shards=common.NPROC * 2)
     for c in culprits:
         concrete.append(payload_for(c["line"], docs, {"what": "crash or sanitizer report", "rc": c["rc"], "stderr": c["stderr"]}))
